@@ -76,6 +76,8 @@ pub struct Cov {
     pub excluded_known: u64,
     pub samples: Vec<Value>,
     pub notes: BTreeMap<String, Value>,
+    /// running maxima (e.g. largest observed deviation from the reference, for calibration)
+    pub maxima: BTreeMap<String, f64>,
     sample_budget: usize,
 }
 
@@ -119,6 +121,14 @@ impl Cov {
             self.notes.insert(k.to_string(), v);
         }
     }
+    pub fn track_max(&mut self, k: &str, v: f64) {
+        if !self.frozen && v.is_finite() {
+            let e = self.maxima.entry(k.to_string()).or_insert(f64::NEG_INFINITY);
+            if v > *e {
+                *e = v;
+            }
+        }
+    }
     /// extra evaluations performed inside one case (e.g. steps of a history)
     pub fn evals(&mut self, n: u64) {
         if !self.frozen {
@@ -140,6 +150,12 @@ impl Cov {
         }
         for (k, v) in o.notes {
             self.notes.insert(k, v);
+        }
+        for (k, v) in o.maxima {
+            let e = self.maxima.entry(k).or_insert(f64::NEG_INFINITY);
+            if v > *e {
+                *e = v;
+            }
         }
     }
 }
@@ -429,6 +445,7 @@ impl Ctx {
             .map(|k| k.signature.clone())
             .collect();
 
+        let stop = std::sync::atomic::AtomicBool::new(false);
         let results: Vec<(Cov, Option<(C, Fail)>, Vec<String>)> = std::thread::scope(|sc| {
             let handles: Vec<_> = (0..shards)
                 .map(|s| {
@@ -437,7 +454,8 @@ impl Ctx {
                     let check = &check;
                     let make_strategy = &make_strategy;
                     let known_sigs = &known_sigs;
-                    sc.spawn(move || run_shard(n, seed, make_strategy(), check, known_sigs))
+                    let stop = &stop;
+                    sc.spawn(move || run_shard(n, seed, make_strategy(), check, known_sigs, stop))
                 })
                 .collect();
             handles
@@ -503,6 +521,7 @@ impl Ctx {
                     "ambiguous_skipped": s.cov.ambiguous,
                     "excluded_known_finding_cases": s.cov.excluded_known,
                     "notes": s.cov.notes,
+                    "observed_maxima": s.cov.maxima,
                 }),
             );
         }
@@ -576,6 +595,7 @@ fn run_shard<C, F>(
     strategy: BoxedStrategy<C>,
     check: &F,
     known_sigs: &[String],
+    stop: &std::sync::atomic::AtomicBool,
 ) -> (Cov, Option<(C, Fail)>, Vec<String>)
 where
     C: Serialize + std::fmt::Debug + Clone + 'static,
@@ -589,7 +609,7 @@ where
     let config = Config {
         cases,
         failure_persistence: None,
-        max_shrink_iters: 600,
+        max_shrink_iters: 3000,
         max_global_rejects: 1 << 20,
         max_local_rejects: 1 << 20,
         ..Config::default()
@@ -597,7 +617,13 @@ where
     let rng = TestRng::from_seed(RngAlgorithm::ChaCha, &seed);
     let mut runner = TestRunner::new_with_rng(config, rng);
     let last_fail: RefCell<Option<Fail>> = RefCell::new(None);
+    let i_failed = std::cell::Cell::new(false);
     let res = runner.run(&strategy, |case: C| {
+        use std::sync::atomic::Ordering;
+        if !i_failed.get() && stop.load(Ordering::Relaxed) {
+            // another shard already found a failure: finish quickly without evaluating
+            return Ok(());
+        }
         let mut c = cov.borrow_mut();
         if !c.frozen {
             c.evaluations += 1;
@@ -628,6 +654,8 @@ where
                     return Ok(());
                 }
                 c.frozen = true;
+                i_failed.set(true);
+                stop.store(true, Ordering::Relaxed);
                 *last_fail.borrow_mut() = Some(f.clone());
                 Err(TestCaseError::fail(f.msg))
             }
